@@ -21,7 +21,9 @@ Inductive case :=
 | CCopyRet (cells above : list cell) (pad : Z) (regv start n b : Z) (obs_top : Z) (obs_cells : list cell)
 (* an object-level API call against the same operator evaluated by a Lua chunk: both sides encoded
    as integer traces (result, then the metamethod log) *)
-| CObj (op : Z) (api lua : list Z).
+| CObj (op : Z) (api lua : list Z)
+(* the same for an input in the class of a listed finding: dev = what the code is known to do there *)
+| CObjDev (op : Z) (api lua dev : list Z).
 
 Definition mkR (pre l above : list cell) (pad grow max : Z) : registry :=
   mkReg (pre ++ l ++ above ++ fresh pad) (len pre + len l) grow max.
@@ -48,6 +50,7 @@ Definition check_impl (c : case) : bool :=
       | _ => false
       end
   | CObj _ api lua => list_eqb Z.eqb api lua
+  | CObjDev _ api _ dev => list_eqb Z.eqb api dev
   end.
 
 (* the values OP_RETURN A B returns from the registers regs (B = 0: up to the top) *)
@@ -83,4 +86,5 @@ Definition check_spec (c : case) : bool :=
         (otop =? regv + n) && cells_eqb (firstn (Z.to_nat regv) cells ++ resizeL (retvals cells start b) n) ocells
       else true
   | CObj _ api lua => list_eqb Z.eqb api lua
+  | CObjDev _ api lua _ => list_eqb Z.eqb api lua
   end.
